@@ -762,6 +762,37 @@ func c13R5(c *Ctx, r *Report) {
 		if !okNil {
 			problems = append(problems, "no `return nil` on the !isStarted() edge: the serve call would report the unblocking error after Shutdown")
 		}
+		// ... and the error of a failed Accept/read is only returned while still started: the isStarted() test made
+		// after the failure must have come out true on every path to `return err`
+		for _, rb := range f.Blocks {
+			retI, isRet := rb.Instrs[len(rb.Instrs)-1].(*ssa.Return)
+			if !isRet || rb == f.Recover {
+				continue
+			}
+			res0 := unspill(rb, retI)[0]
+			if isNilConst(res0) {
+				continue
+			}
+			rp := struct{ Pos token.Pos }{retI.Pos()}
+			// only returns inside the serve loop (dominated by a loop isStarted() call)
+			inLoop, okAfter := false, false
+			for _, fc := range factsAt(f, rb) {
+				call, isCall := fc.Atom.(*ssa.Call)
+				if !isCall || calleeNameSSA(&call.Call) != "(Server).isStarted" || !fc.Holds {
+					continue
+				}
+				inLoop = true
+				// a test made after the failing call: the error value is defined in a block dominating the test
+				for _, leaf := range append(phiLeaves(res0), res0) {
+					if in, ok := leaf.(ssa.Instruction); ok && (in.Block() == call.Block() || in.Block().Dominates(call.Block())) {
+						okAfter = true
+					}
+				}
+			}
+			if inLoop && !okAfter {
+				problems = append(problems, fmt.Sprintf("%s: the error of a failed accept/read can be returned although the server has been shut down meanwhile (no isStarted() test after the failure on this path): after a normal Shutdown the serve call reports the unblocking error instead of nil", c.pos(rp.Pos)))
+			}
+		}
 		// every go statement is inside a region dominated by an isStarted()==true test
 		allInstrs(f, func(in ssa.Instruction) {
 			if g, ok := in.(*ssa.Go); ok {
@@ -798,6 +829,14 @@ func c13R5(c *Ctx, r *Report) {
 		})
 		if n < 2 {
 			problems = append(problems, fmt.Sprintf("%d read/dispatch calls found in serveTCPConn, want at least 2", n))
+		}
+		// the connection registered by serveTCP is unregistered on every way out (hijacked or not)
+		okDel, blk := mustPass(f, f.Blocks[0], -1, func(x ssa.Instruction) bool {
+			call, ok := x.(*ssa.Call)
+			return ok && calleeNameSSA(&call.Call) == "builtin.delete" && anyIn(sliceOf(call.Call.Args[0]), readsField("Server", "conns"))
+		})
+		if !okDel {
+			problems = append(problems, fmt.Sprintf("%s: serveTCPConn can return without delete(srv.conns, conn): the connection stays tracked by the server after it is done with it (Shutdown keeps poking it; a hijacked connection is never forgotten)", c.pos(blk.Instrs[len(blk.Instrs)-1].Pos())))
 		}
 		r.check(len(problems) == 0, "C13.R5.drain", "Server.serveTCPConn:loop", c.pos(f.Pos()), "read and dispatch only while started", "%s", strings.Join(problems, "; "))
 	}
